@@ -68,13 +68,25 @@ pub fn start_determining_calling_process_in_thread() {
 
             let (caller_mutex, determine_done) = &**CALLER;
 
+            #[cfg(dandavison_delta_verif)]
+            crate::verif_hooks::gate("bg:before_lock");
+
             let mut caller = caller_mutex.lock().unwrap();
 
             if CALLER_INFO_SOURCE.load(DELTA_ATOMIC_ORDERING) <= CALLER_GUESSED {
                 *caller = calling_process;
             }
 
+            #[cfg(dandavison_delta_verif)]
+            crate::verif_hooks::caller_stored("bg", &format!("{:?}", *caller));
+
             determine_done.notify_all();
+
+            #[cfg(dandavison_delta_verif)]
+            {
+                drop(caller);
+                crate::verif_hooks::gate("bg:done");
+            }
         })
         .unwrap();
 }
@@ -84,16 +96,32 @@ pub fn set_calling_process(args: &[String]) {
     if let ProcessArgs::Args(result) = describe_calling_process(args) {
         let (caller_mutex, determine_done) = &**CALLER;
 
+        #[cfg(dandavison_delta_verif)]
+        crate::verif_hooks::gate("set:before_lock");
+
         let mut caller = caller_mutex.lock().unwrap();
         *caller = result;
         CALLER_INFO_SOURCE.store(CALLER_KNOWN, DELTA_ATOMIC_ORDERING);
+        #[cfg(dandavison_delta_verif)]
+        crate::verif_hooks::caller_stored("known", &format!("{:?}", *caller));
         determine_done.notify_all();
+
+        #[cfg(dandavison_delta_verif)]
+        {
+            drop(caller);
+            crate::verif_hooks::gate("set:done");
+        }
     }
 }
 
 #[cfg(not(test))]
 pub fn calling_process() -> MutexGuard<'static, CallingProcess> {
     let (caller_mutex, determine_done) = &**CALLER;
+
+    // Gate before the lock is taken; the observer is dropped (and records the
+    // query's result) after the tail expression, while the returned guard holds the lock.
+    #[cfg(dandavison_delta_verif)]
+    let _verif_query = crate::verif_hooks::query_enter();
 
     determine_done
         .wait_while(caller_mutex.lock().unwrap(), |caller| {
